@@ -101,7 +101,8 @@ CHECKS["C02"] = dict(
 CHECKS["C04"] = dict(
     text="Theorems over the reals (round-half-even on round_value decimals, Flocq) about the recurrence specifications of SMA/EMA/RMA/WMA: "
          "EMA and RMA obey r[t] = a x[t] + (1-a) r[t-1] within half a unit of the last decimal, SMA its incremental law, seeds are the "
-         "rounded window mean, no reading before `period` consecutive inputs, EMA stays inside the range of its inputs, and (for every "
+         "rounded window mean, WMA is the rounded weighted mean with weights period..1 over period(period+1)/2, no reading before `period` "
+         "consecutive inputs, EMA stays inside the range of its inputs, and (for every "
          "NumOps instance) position independence. The recurrence specs are tied to the code by their own bit-exact correspondence "
          "(check_spec) and the engine model by check_ind; falsifier = independent textbook references incl. late-starting and zero-valued inputs.",
     note="Binary64 rounding error, overflow and NaN are outside the real-number theorems. VWMA/HMA and the decay-weighted RMA seed: "
